@@ -430,13 +430,14 @@ _UNIT_OP = {}
 OPS = None
 
 
-def unit_result(name, dim, idx, idy=None):
-    key = (name, dim, idx, idy)
+def unit_result(name, dim, idx, idy=None, negx=False, negy=False):
+    """the operation on the unit object(s); negx / negy: the unit is stored with the representative -x"""
+    key = (name, dim, idx, idy, negx, negy)
     if key not in _UNIT_OP:
         cls, arity, other, f, _ = OPS[name]
-        x, _d = cc.build(TABS, cls, dim, (), [idx])
+        x, _d = cc.build(TABS, cls, dim, (), [idx], neg=(1,) if negx else ())
         if arity == 2:
-            y, _d = cc.build(TABS, other, dim, (), [idy])
+            y, _d = cc.build(TABS, other, dim, (), [idy], neg=(1,) if negy else ())
             res = f(x, y)
         else:
             res = f(x)
@@ -444,13 +445,30 @@ def unit_result(name, dim, idx, idy=None):
     return _UNIT_OP[key]
 
 
-def query_case(name, dim, sx, sy, seed):
+MIXED_SIGN_OPS = ("Tangent.origin_to", "Tangent.isometry_to", "Tangent.normalized", "Tangent.angle", "Tangent.point_along",
+                  "HPoint.origin_to", "HPoint.distance", "HPoint.coords(hyperboloid)", "HPoint.coords(klein)")
+
+
+def query_case(name, dim, sx, sy, seed, mixed=False):
+    """mixed: some (not all, when there are several) units of the composites are stored with the representative -x;
+    the unit object at such an index is the unit stored with -x as well"""
     cls, arity, other, f, _ = OPS[name]
-    rng = rng_for(seed, "query", name, dim, sx, sy)
+    rng = rng_for(seed, "query", name, dim, sx, sy, mixed)
     K = TABS.K
     lo = K // 2 + 1 if arity == 2 else K
     xids = [rng.randrange(lo) + 1 for _ in range(size(sx))]
-    X, (xdata,) = cc.build(TABS, cls, dim, sx, xids)
+
+    def signs(n):
+        if not mixed:
+            return [False] * n
+        sg = [rng.random() < 0.5 for _ in range(n)]
+        if n > 1 and all(sg):
+            sg[rng.randrange(n)] = False
+        if not any(sg):
+            sg[rng.randrange(n)] = True
+        return sg
+    xneg = signs(len(xids))
+    X, (xdata,) = cc.build(TABS, cls, dim, sx, xids, neg=[p + 1 for p, b in enumerate(xneg) if b])
     xsnap = cc.snapshot(X)
     with warnings.catch_warnings():
         warnings.simplefilter("ignore")
@@ -460,17 +478,18 @@ def query_case(name, dim, sx, sy, seed):
                     rec = TABS.apply[(sx, sy)]
                     # the two operands differ at every index (distance 0, zero tangents: other properties' business)
                     yids = [lo + 1 + rng.randrange(K - lo) for _ in range(size(sy))]
-                    Y, (ydata,) = cc.build(TABS, other, dim, sy, yids)
+                    yneg = signs(len(yids))
+                    Y, (ydata,) = cc.build(TABS, other, dim, sy, yids, neg=[p + 1 for p, b in enumerate(yneg) if b])
                     res = f(X, Y)
                     eshape = tuple(rec["ew"]["shape"])
-                    pairs = [(xids[c[0] - 1], yids[c[1] - 1]) for c in rec["ew"]["cell"]]
+                    pairs = [(xids[c[0] - 1], yids[c[1] - 1], xneg[c[0] - 1], yneg[c[1] - 1]) for c in rec["ew"]["cell"]]
                 else:
                     res = f(X)
                     eshape = tuple(sx)
-                    pairs = [(i, None) for i in xids]
+                    pairs = [(i, None, sg, False) for i, sg in zip(xids, xneg)]
             except Exception as e:
                 return ("raised", "%s: %s" % (type(e).__name__, e))
-            units = [unit_result(name, dim, a, b) for (a, b) in pairs]
+            units = [unit_result(name, dim, a, b, nx, ny) for (a, b, nx, ny) in pairs]
     for part, (kind, arr) in res.items():
         arr = np.asarray(arr)
         u0 = units[0][part][1]
@@ -479,12 +498,12 @@ def query_case(name, dim, sx, sy, seed):
         E = np.stack([u[part][1] for u in units]).reshape(eshape + tuple(u0.shape))
         bad = compare_part(kind, arr, E)
         if bad:
-            return (part + ".value", bad + "; X cell %s" % (xids,))
+            return (part + ".value", bad + "; X cell %s%s" % (xids, " stored as -x: %s" % (xneg,) if mixed else ""))
     # exact anchors computed by TLC
     if name == "HPoint.distance":
         g = TABS.gram[dim]
         d = np.asarray(res["distance"][1]).reshape(-1)
-        want = np.array([abs(g[a - 1, b - 1, 0]) / np.sqrt(g[a - 1, b - 1, 1] * g[a - 1, b - 1, 2]) for (a, b) in pairs])
+        want = np.array([abs(g[a - 1, b - 1, 0]) / np.sqrt(g[a - 1, b - 1, 1] * g[a - 1, b - 1, 2]) for (a, b, _nx, _ny) in pairs])
         far = want > 1 + 1e-9
         if not np.allclose(np.cosh(d[far]), want[far], rtol=1e-9, atol=0):
             return ("distance.exact", "cosh d differs from the exact value |<p,q>|/sqrt(<p,p><q,q>)")
@@ -582,14 +601,15 @@ def query_chunk(args):
             elif c[0] == "SL(2) maps":
                 bad = sl2_case(c[1], c[2], seed)
             else:
-                bad = query_case(c[0], c[1], c[2], c[3], seed)
+                bad = query_case(c[0], c[1], c[2], c[3], seed, mixed=len(c) > 4 and c[4])
         except core.MachineryFailure:
             raise
         except Exception as e:
             bad = ("raised", "%s: %s" % (type(e).__name__, e))
         per[c[0]] = per.get(c[0], 0) + 1
         if bad and len(viol) < 10:
-            viol.append((dict(op=c[0], dim=c[1], sx=list(c[2]), sy=None if c[3] is None else list(c[3])), bad))
+            viol.append((dict(op=c[0] + (" (mixed signs of representatives)" if len(c) > 4 and c[4] else ""), dim=c[1], sx=list(c[2]),
+                              sy=None if c[3] is None else list(c[3])), bad))
         if sample is None and c[0] == "HPoint.distance" and len(c[2]) == 2 and c[3] and c[2] != c[3]:
             sample = dict(kind="vectorised query", op=c[0], dim=c[1], sx=list(c[2]), sy=list(c[3]),
                           spec_shape=TABS.apply[(c[2], c[3])]["ew"]["shape"])
@@ -686,6 +706,10 @@ def run(run, replay=None):
                 # binary queries are documented for operands of one shape only
                 for sx in shapes:
                     cases.append((name, dim, sx, sx))
+            if name in MIXED_SIGN_OPS:
+                for sx in shapes:
+                    if len(sx) <= 2 or not quick:
+                        cases.append((name, dim, sx, sx if arity == 2 else None, True))
     for dim in (2, 3):
         for s in shapes:
             if len(s) <= 2:
